@@ -45,6 +45,9 @@ pub struct Ctx {
     pub started: Instant,
     /// Optional replay: run only this (phase, run index).
     pub replay: Option<(String, u64)>,
+    /// Child of a sanitizer leg (runs under valgrind): at most this many runs per phase, no time budget, no
+    /// evidence file, no coverage floor.
+    pub leg_child: Option<u64>,
 }
 
 #[derive(Clone, Debug)]
@@ -206,6 +209,10 @@ pub fn shard_runs(
     ctx: &Ctx, phase: &'static str, n: u64, budget: Duration, per_run_watchdog: Duration,
     f: Arc<dyn Fn(u64, u64) -> RunOut + Send + Sync>,
 ) -> Agg {
+    let (n, budget, per_run_watchdog) = match ctx.leg_child {
+        Some(m) => (n.min(m), Duration::from_secs(3600), per_run_watchdog * 20),
+        None => (n, budget, per_run_watchdog),
+    };
     let next = Arc::new(AtomicU64::new(0));
     let stop = Arc::new(AtomicBool::new(false));
     let threads = ctx.threads.max(1).min(60);
@@ -447,7 +454,7 @@ pub fn finish(ctx: &Ctx, agg: Agg, rep: Report) -> i32 {
         "wall_s": ctx.started.elapsed().as_secs_f64(),
         "violations": unknown.len(),
     });
-    if ctx.replay.is_none() {
+    if ctx.replay.is_none() && ctx.leg_child.is_none() {
         let dir = ctx.verif_dir.join("evidence");
         let _ = std::fs::create_dir_all(&dir);
         let path = dir.join(format!("{}.json", ctx.id));
@@ -497,7 +504,7 @@ pub fn finish(ctx: &Ctx, agg: Agg, rep: Report) -> i32 {
         return 1;
     }
 
-    if ctx.replay.is_some() {
+    if ctx.replay.is_some() || ctx.leg_child.is_some() {
         return 0;
     }
     if agg.evaluations == 0 || (agg.cases.len() as u64) < rep.min_nontrivial.max(2) {
@@ -519,4 +526,112 @@ pub fn push_limited<T>(v: &Mutex<Vec<T>>, x: T, max: usize) {
     if g.len() < max {
         g.push(x);
     }
+}
+
+/// Sanitizer leg: re-runs the first `runs` runs of every phase of this check in a child process under valgrind
+/// memcheck (invalid reads/writes, uses of uninitialised memory, invalid frees, and blocks definitely or
+/// indirectly lost at exit). Returns what was observed (for the evidence file) and violations. A leg that cannot
+/// run (valgrind missing, child killed by the wall-clock limit, unreadable log) is *inconclusive* and says so.
+pub fn memcheck_leg(ctx: &Ctx, runs: u64) -> (Value, Vec<(String, u64, u64, Viol)>) {
+    let mut viols = Vec::new();
+    if ctx.replay.is_some() || ctx.leg_child.is_some() {
+        return (json!({"status": "not run (replay or child)"}), viols);
+    }
+    let dir = ctx.verif_dir.join("harness").join("target").join("legs").join(ctx.id);
+    let _ = std::fs::remove_dir_all(&dir);
+    if std::fs::create_dir_all(&dir).is_err() {
+        return (json!({"status": "inconclusive: cannot create the leg directory"}), viols);
+    }
+    let _ = std::fs::copy(ctx.verif_dir.join("known_findings.json"), dir.join("known_findings.json"));
+    let exe = match std::env::current_exe() {
+        Ok(e) => e,
+        Err(e) => return (json!({"status": format!("inconclusive: current_exe: {e}")}), viols),
+    };
+    let log = dir.join("memcheck.log");
+    let t0 = Instant::now();
+    let child = std::process::Command::new("valgrind")
+        .arg("--leak-check=full")
+        .arg("--show-leak-kinds=definite,indirect")
+        .arg("--errors-for-leak-kinds=definite,indirect")
+        .arg("--error-exitcode=77")
+        .arg("--num-callers=30")
+        .arg(format!("--log-file={}", log.display()))
+        .arg(&exe)
+        .arg(ctx.id)
+        .args(["--tier", ctx.tier.name(), "--seed", &ctx.seed.to_string(), "--threads", "2", "--leg-child", &runs.to_string()])
+        .env("VERIF_DIR", &dir)
+        .stdout(std::process::Stdio::piped())
+        .stderr(std::process::Stdio::null())
+        .spawn();
+    let mut child = match child {
+        Ok(c) => c,
+        Err(e) => return (json!({"status": format!("inconclusive: valgrind could not be started: {e}")}), viols),
+    };
+    // wall-clock limit: inconclusive, never a violation
+    let limit = Duration::from_secs(1500);
+    let status = loop {
+        match child.try_wait() {
+            Ok(Some(st)) => break Some(st),
+            Ok(None) if t0.elapsed() > limit => {
+                let _ = child.kill();
+                let _ = child.wait();
+                break None;
+            }
+            Ok(None) => std::thread::sleep(Duration::from_millis(200)),
+            Err(_) => break None,
+        }
+    };
+    let mut out = String::new();
+    if let Some(mut so) = child.stdout.take() {
+        use std::io::Read;
+        let _ = so.read_to_string(&mut out);
+    }
+    let Some(status) = status else {
+        return (json!({"status": format!("inconclusive: child exceeded the wall-clock limit of {limit:?}")}), viols);
+    };
+    let logtxt = std::fs::read_to_string(&log).unwrap_or_default();
+    let num_after = |key: &str| -> Option<u64> {
+        logtxt.lines().rev().find(|l| l.contains(key)).and_then(|l| l.split(key).nth(1)).and_then(|r| r.trim().split(' ').next().map(|x| x.replace(',', ""))).and_then(|x| x.parse().ok())
+    };
+    let errors = num_after("ERROR SUMMARY:");
+    let def_lost = num_after("definitely lost:");
+    let ind_lost = num_after("indirectly lost:");
+    let allocs = num_after("total heap usage:");
+    let summary = out.lines().rev().find(|l| l.contains("evaluations=")).unwrap_or("").to_string();
+    let code = status.code();
+    let mut obs = json!({
+        "tool": "valgrind memcheck (leak kinds: definite, indirect) on the release harness, 2 shard threads",
+        "runs_per_phase": runs, "child_exit": code, "child_summary": summary, "memcheck_errors": errors,
+        "definitely_lost_bytes": def_lost, "indirectly_lost_bytes": ind_lost, "heap_allocations_observed": allocs,
+        "wall_s": t0.elapsed().as_secs_f64(),
+    });
+    if errors.is_none() || allocs.is_none() {
+        obs["status"] = json!("inconclusive: memcheck log has no summary");
+        return (obs, viols);
+    }
+    if errors.unwrap_or(0) > 0 || def_lost.unwrap_or(0) > 0 || ind_lost.unwrap_or(0) > 0 {
+        // first report block of the log as the witness
+        let block: Vec<&str> = logtxt.lines().skip_while(|l| !(l.contains("Invalid ") || l.contains("uninitialised") || l.contains("are definitely lost") || l.contains("are indirectly lost") || l.contains("Mismatched"))).take(32).collect();
+        let first = block.first().map(|l| l.split("== ").nth(1).unwrap_or(l).to_string()).unwrap_or_default();
+        let kind = if first.contains("lost") { "leak" } else { "memory-error" };
+        viols.push((
+            "memcheck".to_string(),
+            0,
+            ctx.seed,
+            Viol { signature: format!("{}:memcheck:{kind}", ctx.id), detail: format!("valgrind memcheck reported {} error contexts ({} bytes definitely, {} indirectly lost); first: {first}", errors.unwrap_or(0), def_lost.unwrap_or(0), ind_lost.unwrap_or(0)), replay: json!({"log": log.display().to_string(), "first_report": block}) },
+        ));
+        obs["status"] = json!("violated");
+    } else if code == Some(1) {
+        // behavioural violation under valgrind's timing: pass the child's lines on
+        for l in out.lines().filter(|l| l.trim_start().starts_with("signature=")) {
+            let sig = l.trim_start().trim_start_matches("signature=").split(' ').next().unwrap_or("").to_string();
+            viols.push(("memcheck".to_string(), 0, ctx.seed, Viol { signature: sig, detail: format!("(observed in the memcheck leg) {}", l.trim()), replay: json!({"child_output": out.lines().rev().take(20).collect::<Vec<_>>(), "leg_dir": dir.display().to_string()}) }));
+        }
+        obs["status"] = json!("behavioural violation in the child");
+    } else if code == Some(0) {
+        obs["status"] = json!("held: no memcheck error, nothing definitely or indirectly lost at exit");
+    } else {
+        obs["status"] = json!(format!("inconclusive: child exit {code:?}"));
+    }
+    (obs, viols)
 }
